@@ -105,6 +105,9 @@ func registerCompounds() {
 	inv := func(s []strategy.Strategy) strategy.Strategy { return decorator.NewInverseStrategy(s[0]) }
 	noloss := func(s []strategy.Strategy) strategy.Strategy { return decorator.NewNoLossStrategy(s[0]) }
 	stop := func(s []strategy.Strategy) strategy.Strategy { return decorator.NewStopLossStrategy(s[0], 0.1) }
+	// a stop-loss of 100 %: the stop level is 0, which the decorator also uses for "no position" - its Compute then repeats
+	// Buy for as long as the inner strategy does, and everything downstream has to cope with a denormalised stream
+	stopAll := func(s []strategy.Strategy) strategy.Strategy { return decorator.NewStopLossStrategy(s[0], 1.0) }
 	nested := func(s []strategy.Strategy) strategy.Strategy {
 		return decorator.NewNoLossStrategy(decorator.NewStopLossStrategy(s[0], 0.05))
 	}
@@ -135,6 +138,8 @@ func registerCompounds() {
 		mkCompound("decorator.NoLoss", noloss, rsi),
 		mkCompound("decorator.StopLoss", stop, macd),
 		mkCompound("decorator.NoLoss.StopLoss", nested, bah),
+		mkCompound("decorator.StopLoss@100%", stopAll, macd),
+		mkCompound("decorator.StopLoss@100%", stopAll, rsi),
 		mkCompound("decorator.Inverse.And", invAnd, aroon, bop),
 	)
 	// second level: parts that are themselves decorators / compounds hand their actions over unbuffered channels
